@@ -1,5 +1,6 @@
 import RR.Proof.SyncSpecs
 import RR.Proof.Hand
+import RR.Proof.Conv
 
 /-!
 # C10 — exactly-specified blocks compute their documented function
@@ -75,6 +76,23 @@ theorem c10_rtlsdr (X : List Nat) (sched : List (Nat × Nat)) :
     (drive1 rtlBlock X () 0 [] sched).2.2 = rtlSpec (X.take (drive1 rtlBlock X () 0 [] sched).2.1) := by
   have := rtl_drive X 0 (by decide) sched
   simpa [rtlSpec, pairs] using this.1
+
+/-- Stream-to-PDU: a per-sample automaton — feeding `a ++ b` is feeding `a`, then `b`
+(chunking is immaterial), and no PDU ever holds more than `max_size` samples. -/
+theorem c10_s2pdu (key maxSize tail : Nat) (tags : List Tag) (a b : List Nat) :
+    s2pLoop key maxSize tail tags (a ++ b) 0 ⟨[], none⟩ [] =
+      s2pLoop key maxSize tail tags b a.length (s2pLoop key maxSize tail tags a 0 ⟨[], none⟩ []).1
+        (s2pLoop key maxSize tail tags a 0 ⟨[], none⟩ []).2 ∧
+    ∀ p ∈ (s2pLoop key maxSize tail tags (a ++ b) 0 ⟨[], none⟩ []).2, p.length ≤ maxSize := by
+  constructor
+  · have := s2pLoop_append key maxSize tail tags a b 0 ⟨[], none⟩ []
+    simpa using this
+  · exact (s2pLoop_bound key maxSize tail tags (a ++ b) 0 ⟨[], none⟩ [] (by simp) (by simp)).2
+
+/-- An end tag without a burst in progress emits nothing (the tail-only PDU defect, repaired). -/
+example : (s2pLoop 100 10 2 [⟨1, 100, 0⟩] [5, 6, 7, 8, 9] 0 ⟨[], none⟩ []).2 = [] := by decide
+/-- start at 1, end at 3, tail 1: samples 1, 2 and the one after the end-tagged sample -/
+example : (s2pLoop 100 10 1 [⟨1, 100, 1⟩, ⟨3, 100, 0⟩] [5, 6, 7, 8, 9, 10] 0 ⟨[], none⟩ []).2 = [[6, 7, 9]] := by decide
 
 /-! Non-vacuity. -/
 example : nrziSpec 0 [1, 1, 0, 0, 1] = [0, 1, 0, 1, 0] := by decide
